@@ -334,5 +334,10 @@ inline const char *estate_name(int s) {
 struct KeyProbe {
   int key;
 };
+/// coarser probe: equivalent to every element whose key lies in [lo, hi] -- the classic use of a transparent comparator
+/// (std::set::count then returns how many there are, find returns any of them, the bounds delimit the run)
+struct RangeProbe {
+  int lo, hi;
+};
 
 }  // namespace sim
